@@ -40,6 +40,19 @@ Theorem C05_callback_same :
     /\ o_rules (run_scan c Never inp sc) = [].
 Proof. exact run_scan_callback_spec. Qed.
 
+(* ... and under any configuration, including those where rules are evaluated before the string scan: the rule
+   events are those of the specification; what precedes them are only the module-import / match-limit events
+   (none from the string scan when the first pass decides every rule and the scan is skipped) *)
+Theorem C05_callback_same_any_config :
+  forall c inp sc,
+    c_cb c = true ->
+    wf_scanner inp sc = true -> ns_bound (s_nns sc) (s_globals sc) -> ns_bound (s_nns sc) (s_rules sc) ->
+    o_err (run_scan c Never inp sc) = None
+    /\ o_rules (run_scan c Never inp sc) = []
+    /\ exists pre, o_events (run_scan c Never inp sc) = pre ++ spec_events c sc inp
+                   /\ (pre = (if c_direct c then import_events c inp else []) \/ pre = pre_events c inp).
+Proof. exact run_scan_callback_spec_any. Qed.
+
 (* a namespace is disabled after the global phase iff one of its global rules does not hold *)
 Theorem C05_namespace_disabled_iff :
   forall c inp gs dis ms, ns_bound (length dis) gs ->
@@ -83,6 +96,7 @@ Proof. vm_compute. repeat split. Qed.
 Print Assumptions C05_scan_eq_spec.
 Print Assumptions C05_scan_eq_spec_any_config.
 Print Assumptions C05_callback_same.
+Print Assumptions C05_callback_same_any_config.
 Print Assumptions C05_namespace_disabled_iff.
 Print Assumptions C05_var_alignment.
 Print Assumptions C05_result_is_spec.
